@@ -6,6 +6,7 @@ import (
 	"go/types"
 	"strings"
 
+	"golang.org/x/tools/go/cfg"
 	"golang.org/x/tools/go/packages"
 	"golang.org/x/tools/go/types/typeutil"
 
@@ -59,9 +60,9 @@ func c15deref(t types.Type) types.Type {
 		return nil
 	}
 	if p, ok := t.Underlying().(*types.Pointer); ok {
-		return p.Elem()
+		return types.Unalias(p.Elem())
 	}
-	return t
+	return types.Unalias(t)
 }
 
 // c15isNamed reports whether t is n or *n.
@@ -196,8 +197,12 @@ func (e *c15env) writesIn(fns []*flow.Func) []c15write {
 	var out []c15write
 	if e.writePacket != nil {
 		for _, s := range e.callsIn(fns, e.writePacket) {
-			if len(s.call.Args) == 1 {
-				out = append(out, c15write{s.fn, s.call, s.call.Args[0]})
+			args := c15args(s.fn, s.call)
+			if e.recvOf(e.writePacket) == nil && len(args) > 0 {
+				args = args[1:] // function form: the client comes first
+			}
+			if len(args) == 1 {
+				out = append(out, c15write{s.fn, s.call, args[0]})
 			}
 		}
 	}
@@ -218,15 +223,58 @@ func (e *c15env) writesIn(fns []*flow.Func) []c15write {
 	return out
 }
 
-// methodsOf lists the methods of n for which role holds.
+// methodsOf lists the methods of n for which role holds — and the plain functions taking n (or *n) as
+// their first parameter (a method turned into a function): role sees their signature without it.
 func (e *c15env) methodsOf(n *types.Named, role func(g *flow.Func, sig *types.Signature) bool) []*flow.Func {
 	var out []*flow.Func
+	if n == nil {
+		return nil
+	}
 	for _, g := range e.fns {
-		if r := e.recvOf(g); r != nil && n != nil && types.Identical(r, n) && role(g, e.sig(g)) {
+		sig := e.sig(g)
+		if sig == nil {
+			continue
+		}
+		if r := e.recvOf(g); r != nil {
+			if types.Identical(r, n) && role(g, sig) {
+				out = append(out, g)
+			}
+			continue
+		}
+		if sig.Recv() != nil || sig.Params().Len() == 0 || !c15isNamed(sig.Params().At(0).Type(), n) {
+			continue
+		}
+		var rest []*types.Var
+		for i := 1; i < sig.Params().Len(); i++ {
+			rest = append(rest, sig.Params().At(i))
+		}
+		if role(g, types.NewSignatureType(nil, nil, nil, types.NewTuple(rest...), sig.Results(), sig.Variadic())) {
 			out = append(out, g)
 		}
 	}
 	return out
+}
+
+// subjectOf returns the operand a call works on: the receiver of a method call, or the first
+// argument when the callee is a plain function taking a Session / Client / Broker first.
+func (e *c15env) subjectOf(g *flow.Func, call *ast.CallExpr) ast.Expr {
+	o, recv := c15callee(g, call)
+	if recv != nil {
+		return recv
+	}
+	fo, ok := o.(*types.Func)
+	if !ok || len(call.Args) == 0 {
+		return nil
+	}
+	sig := fo.Type().(*types.Signature)
+	if sig.Recv() != nil || sig.Params().Len() == 0 {
+		return nil
+	}
+	t := sig.Params().At(0).Type()
+	if c15isNamed(t, e.sessT) || c15isNamed(t, e.clientT) || c15isNamed(t, e.brokerT) {
+		return call.Args[0]
+	}
+	return nil
 }
 
 // selects reports whether x is a selector of field fld.
@@ -364,8 +412,13 @@ func c15callee(g *flow.Func, call *ast.CallExpr) (types.Object, ast.Expr) {
 	case *types.Func:
 		var recv ast.Expr
 		if sel, ok := fun.(*ast.SelectorExpr); ok {
-			if s := g.Info.Selections[sel]; s != nil && s.Kind() == types.MethodVal {
-				recv = sel.X
+			if s := g.Info.Selections[sel]; s != nil {
+				switch {
+				case s.Kind() == types.MethodVal:
+					recv = sel.X
+				case s.Kind() == types.MethodExpr && len(call.Args) > 0:
+					recv = call.Args[0]
+				}
 			}
 		}
 		return o.Origin(), recv
@@ -373,6 +426,16 @@ func c15callee(g *flow.Func, call *ast.CallExpr) (types.Object, ast.Expr) {
 		return o, nil
 	}
 	return nil, nil
+}
+
+// c15args returns the arguments of a call without the receiver operand of a method-expression call.
+func c15args(g *flow.Func, call *ast.CallExpr) []ast.Expr {
+	if sel, ok := ast.Unparen(call.Fun).(*ast.SelectorExpr); ok {
+		if s := g.Info.Selections[sel]; s != nil && s.Kind() == types.MethodExpr && len(call.Args) > 0 {
+			return call.Args[1:]
+		}
+	}
+	return call.Args
 }
 
 // c15funcValue resolves an expression denoting a declared function or a bound method value.
@@ -384,8 +447,13 @@ func c15funcValue(g *flow.Func, x ast.Expr) (types.Object, ast.Expr) {
 		}
 	case *ast.SelectorExpr:
 		if s := g.Info.Selections[r]; s != nil {
-			if fo, ok := s.Obj().(*types.Func); ok && s.Kind() == types.MethodVal {
-				return fo.Origin(), r.X
+			if fo, ok := s.Obj().(*types.Func); ok {
+				switch s.Kind() {
+				case types.MethodVal:
+					return fo.Origin(), r.X
+				case types.MethodExpr: // (*Client).processPublish
+					return fo.Origin(), nil
+				}
 			}
 			return nil, nil
 		}
@@ -552,8 +620,8 @@ func (t *c15trace) walk(g *flow.Func, x ast.Expr, depth int) []c15term {
 				switch {
 				case isRecv:
 					arg = s.recv
-				case pi < len(s.call.Args) && !s.call.Ellipsis.IsValid():
-					arg = s.call.Args[pi]
+				case pi < len(c15args(s.fn, s.call)) && !s.call.Ellipsis.IsValid():
+					arg = c15args(s.fn, s.call)[pi]
 				}
 				if arg == nil {
 					out = append(out, term...)
@@ -592,8 +660,148 @@ func (t *c15trace) walk(g *flow.Func, x ast.Expr, depth int) []c15term {
 		return t.result(g, v, 0, depth+1)
 	case *ast.TypeAssertExpr:
 		return t.walk(g, v.X, depth+1)
+	case *ast.UnaryExpr:
+		if v.Op == token.AND {
+			if _, ok := ast.Unparen(v.X).(*ast.CompositeLit); ok {
+				return []c15term{{fn: g, expr: ast.Unparen(v.X), idx: -1}}
+			}
+		}
+	case *ast.StarExpr:
+		return t.walk(g, v.X, depth+1)
+	case *ast.SliceExpr:
+		return t.walk(g, v.X, depth+1) // a part of a slice holds elements of that slice
+	case *ast.SelectorExpr:
+		// a field of a struct value built in the reach (an intermediate struct carrying several values
+		// between two functions): the value given to the field in the composite literal, or assigned
+		// to it afterwards through one of the variables the struct passed through
+		sel := g.Info.Selections[v]
+		if sel == nil || sel.Kind() != types.FieldVal || len(sel.Index()) != 1 {
+			return term
+		}
+		fld, ok := sel.Obj().(*types.Var)
+		if !ok || fld.Pkg() != t.e.pkg.Types {
+			return term
+		}
+		if out := t.field(g, v.X, fld, depth); out != nil {
+			return out
+		}
 	}
 	return term
+}
+
+// field follows field fld of the struct value x: the values given to it where the struct was built
+// (composite literal) and assigned to it through the variables the struct passed through; nil when
+// the struct is a long-lived object or comes from somewhere the rule cannot see into.
+func (t *c15trace) field(g *flow.Func, x ast.Expr, fld *types.Var, depth int) []c15term {
+	if tv, ok := g.Info.Types[x]; !ok || !t.e.transient(tv.Type) {
+		return nil // a long-lived shared object (Session, Client, Broker ..): its fields are state, not a value in transit
+	}
+	before := map[types.Object]bool{}
+	for o := range t.vars {
+		before[o] = true
+	}
+	var out []c15term
+	built := false
+	for _, src := range t.walk(g, x, depth+1) {
+		lit, ok := src.expr.(*ast.CompositeLit)
+		if !ok || src.idx >= 0 {
+			return nil // the struct comes from somewhere the rule cannot see into
+		}
+		built = true
+		if val := c15litField(src.fn, lit, fld); val != nil {
+			out = append(out, t.walk(src.fn, val, depth+1)...)
+		} else {
+			out = append(out, c15term{fn: src.fn, expr: lit, idx: -1}) // zero value of the field
+		}
+	}
+	if !built {
+		return nil
+	}
+	// x.f = v on the variables the struct value passed through
+	var passed []types.Object
+	for o := range t.vars {
+		if !before[o] {
+			passed = append(passed, o)
+		}
+	}
+	for _, o := range passed {
+		h := t.e.fnAt(o.Pos())
+		if h == nil {
+			continue
+		}
+		ast.Inspect(h.Body, func(n ast.Node) bool {
+			as, ok := n.(*ast.AssignStmt)
+			if !ok || len(as.Lhs) != len(as.Rhs) {
+				return true
+			}
+			for i, l := range as.Lhs {
+				ls, ok := ast.Unparen(l).(*ast.SelectorExpr)
+				if !ok || !t.e.selects(ls, fld) {
+					continue
+				}
+				if id, ok := ast.Unparen(ls.X).(*ast.Ident); ok && c15objOf(h, id) == o {
+					out = append(out, t.walk(h, as.Rhs[i], depth+1)...)
+				}
+			}
+			return true
+		})
+	}
+	return out
+}
+
+// transient reports whether t is (a pointer to) a struct type of the package that only carries values:
+// no mutex, no channel, not one of the anchored long-lived types.
+func (e *c15env) transient(t types.Type) bool {
+	d := c15deref(t)
+	if d == nil {
+		return false
+	}
+	for _, a := range []*types.Named{e.sessT, e.clientT, e.brokerT, e.topicMgrT} {
+		if a != nil && types.Identical(d, a) {
+			return false
+		}
+	}
+	st, ok := d.Underlying().(*types.Struct)
+	if !ok {
+		return false
+	}
+	if n, ok := d.(*types.Named); ok && n.Obj().Pkg() != e.pkg.Types {
+		return false
+	}
+	for i := 0; i < st.NumFields(); i++ {
+		ft := st.Field(i).Type()
+		if _, isChan := ft.Underlying().(*types.Chan); isChan {
+			return false
+		}
+		if n, ok := c15deref(ft).(*types.Named); ok && n.Obj().Pkg() != nil && n.Obj().Pkg().Path() == "sync" {
+			return false
+		}
+	}
+	return true
+}
+
+// c15litField returns the value given to field fld in a composite literal (nil if not given).
+func c15litField(g *flow.Func, lit *ast.CompositeLit, fld *types.Var) ast.Expr {
+	tv, ok := g.Info.Types[lit]
+	if !ok {
+		return nil
+	}
+	st, ok := c15deref(tv.Type).Underlying().(*types.Struct)
+	if !ok {
+		return nil
+	}
+	for i, el := range lit.Elts {
+		if kv, ok := el.(*ast.KeyValueExpr); ok {
+			if id, ok := kv.Key.(*ast.Ident); ok && id.Name == fld.Name() {
+				return kv.Value
+			}
+			continue
+		}
+		if i < st.NumFields() && st.Field(i) == fld {
+			return el
+		}
+	}
+	return nil
 }
 
 // result follows the i-th value of a multi-value expression.
@@ -1020,12 +1228,10 @@ func c15resolve(c *core.Ctx) *c15env {
 			return sig.Params().Len() == 1 && c15isPacket(sig.Params().At(0).Type(), "PublishPacket") && sig.Results().Len() == 1 &&
 				types.Identical(sig.Results().At(0).Type().Underlying(), types.Typ[types.Bool])
 		}))
-	var pp []*flow.Func
-	for _, g := range e.fns {
-		sig := e.sig(g)
-		if sig == nil || sig.Recv() != nil || sig.Results().Len() != 0 || sig.Params().Len() != 2 ||
-			!c15isNamed(sig.Params().At(0).Type(), e.clientT) || !c15isPacket(sig.Params().At(1).Type(), "ControlPacket") {
-			continue
+	// func(*Client, ControlPacket) or the same as a method of Client
+	pp := e.methodsOf(e.clientT, func(g *flow.Func, sig *types.Signature) bool {
+		if sig.Results().Len() != 0 || sig.Params().Len() != 1 || !c15isPacket(sig.Params().At(0).Type(), "ControlPacket") {
+			return false
 		}
 		asserts := false
 		ast.Inspect(g.Body, func(n ast.Node) bool {
@@ -1036,10 +1242,8 @@ func c15resolve(c *core.Ctx) *c15env {
 			}
 			return true
 		})
-		if asserts {
-			pp = append(pp, g)
-		}
-	}
+		return asserts
+	})
 	e.processPublish = e.pick("processing of an accepted PUBLISH from a client (func(*Client, ControlPacket) asserting *PublishPacket)", "processPublish", pp)
 	return e
 }
@@ -1098,4 +1302,159 @@ func c15liftLit(g *flow.Func, at ast.Node) []*ast.CallExpr {
 		}
 	}
 	return out
+}
+
+// c15run is the interpretation of a function together with the separate interpretations of the
+// function literals that its reach hands to same-package "runner" helpers which call them
+// (s.withLock(func() { .. })): the engine does not follow a literal passed as an argument, so each
+// such literal is interpreted on its own, starting with the session lock held when the runner
+// calls its parameter under the lock.
+type c15run struct {
+	main *flow.Result
+	lits []*flow.Result
+}
+
+func (r *c15run) at(n ast.Node) []*flow.State {
+	out := append([]*flow.State(nil), r.main.At[n]...)
+	for _, l := range r.lits {
+		out = append(out, l.At[n]...)
+	}
+	return out
+}
+
+// all merges the At maps of the runs.
+func (r *c15run) all() map[ast.Node][]*flow.State {
+	out := map[ast.Node][]*flow.State{}
+	for n, sts := range r.main.At {
+		out[n] = append(out[n], sts...)
+	}
+	for _, l := range r.lits {
+		for n, sts := range l.At {
+			out[n] = append(out[n], sts...)
+		}
+	}
+	return out
+}
+
+func (r *c15run) inlined(g *flow.Func) bool {
+	if c15inlined(r.main, g) {
+		return true
+	}
+	for _, l := range r.lits {
+		if c15inlined(l, g) {
+			return true
+		}
+	}
+	return false
+}
+
+// runnerLocks reports whether helper h calls its i-th parameter (a func()) only with the session lock held.
+func (e *c15env) runnerLocks(h *flow.Func, i int) (ncalls int, locked bool) {
+	pid := e.paramIdent(h, i)
+	if pid == nil {
+		return 0, false
+	}
+	po := h.Info.Defs[pid]
+	var sites []*ast.CallExpr
+	for _, call := range calls(h.Body, true) {
+		if id, ok := ast.Unparen(call.Fun).(*ast.Ident); ok && c15objOf(h, id) == po {
+			sites = append(sites, call)
+		}
+	}
+	if len(sites) == 0 {
+		return 0, false
+	}
+	res := analyze(e.c, h, flow.Config{NoHavoc: true, OnCall: func(st *flow.State, call *ast.CallExpr, callee types.Object, d bool) {
+		e.sessLock(st, call, callee)
+	}})
+	if res == nil {
+		return len(sites), false
+	}
+	locked = true
+	for _, call := range sites {
+		if len(res.At[call]) == 0 {
+			locked = false
+		}
+		for _, st := range res.At[call] {
+			if !st.Is("ev:locked", flow.True) {
+				locked = false
+			}
+		}
+	}
+	return len(sites), locked
+}
+
+// analyse interprets f with cfg (closures held in locals in place) and, separately, every function
+// literal of fns that is passed to a same-package helper calling it.
+func (e *c15env) analyse(f *flow.Func, fns []*flow.Func, conf flow.Config) *c15run {
+	conf.InlineClosures = true
+	main := analyze(e.c, f, conf)
+	if main == nil {
+		return nil
+	}
+	run := &c15run{main: main}
+	for _, g := range fns {
+		for _, call := range calls(g.Body, true) {
+			o, _ := c15callee(g, call)
+			h := e.byObj[o]
+			if h == nil {
+				continue
+			}
+			for i, a := range c15args(g, call) {
+				lit, ok := ast.Unparen(a).(*ast.FuncLit)
+				if !ok {
+					continue
+				}
+				n, locked := e.runnerLocks(h, i)
+				if n == 0 {
+					continue
+				}
+				// the rule's events that hold in every state reaching the runner call hold when the literal starts
+				var seed []string
+				for si, st := range main.At[call] {
+					var mine []string
+					for _, fact := range st.Facts() {
+						if strings.HasPrefix(fact, "ev:") && strings.HasSuffix(fact, "=T") {
+							mine = append(mine, fact[:len(fact)-2])
+						}
+					}
+					if si == 0 {
+						seed = mine
+						continue
+					}
+					var both []string
+					for _, k := range seed {
+						for _, m := range mine {
+							if k == m {
+								both = append(both, k)
+							}
+						}
+					}
+					seed = both
+				}
+				sub := conf
+				prev := conf.OnBlock
+				sub.OnBlock = func(st *flow.State, b *cfg.Block) {
+					if !st.Is("ev:litInit", flow.True) {
+						st.Set("ev:litInit", flow.True)
+						for _, k := range seed {
+							if k != "ev:locked" {
+								st.Set(k, flow.True)
+							}
+						}
+						if locked {
+							st.Set("ev:locked", flow.True)
+						}
+					}
+					if prev != nil {
+						prev(st, b)
+					}
+				}
+				if res := analyze(e.c, g.Lit(lit), sub); res != nil {
+					run.lits = append(run.lits, res)
+				}
+			}
+		}
+	}
+	return run
 }
